@@ -201,10 +201,10 @@ Print Assumptions C20_src_name_sorted_perm_invariant.
    however many names need sanitising *)
 Theorem C20_src_sanitizer_names_perm_invariant : forall pres pres',
   Permutation pres pres' ->
-  sanitize_all src_verilog_valid src_prefix_verilog (src_present_verilog pres) =
-  sanitize_all src_verilog_valid src_prefix_verilog (src_present_verilog pres')
-  /\ sanitize_all src_verilog_valid src_prefix_vcd (src_present_vcd pres) =
-     sanitize_all src_verilog_valid src_prefix_vcd (src_present_vcd pres').
+  sanitize_all src_valid_verilog src_prefix_verilog (src_present_verilog pres) =
+  sanitize_all src_valid_verilog src_prefix_verilog (src_present_verilog pres')
+  /\ sanitize_all src_valid_vcd src_prefix_vcd (src_present_vcd pres) =
+     sanitize_all src_valid_vcd src_prefix_vcd (src_present_vcd pres').
 Proof.
   intros pres pres' P.
   exact (conj (src_verilog_names_perm_invariant pres pres' P) (src_vcd_names_perm_invariant pres pres' P)).
@@ -214,11 +214,11 @@ Print Assumptions C20_src_sanitizer_names_perm_invariant.
 (* output_to_verilog: same text for every iteration order of wirevector_set and logic *)
 Theorem C20_src_verilog_text_perm_invariant : forall wsecs nsecs ws ws' ns ns',
   Permutation ws ws' -> Permutation ns ns' ->
-  NoDup (map (fun w => export_vn src_present_verilog src_verilog_valid src_prefix_verilog ws (wname w)) ws) ->
-  NoDup (map (fun n => nsort (rename_n (export_vn src_present_verilog src_verilog_valid src_prefix_verilog ws) n)) ns) ->
-  export_text src_natural_key src_natural_key_ltb src_present_verilog src_verilog_valid src_prefix_verilog
+  NoDup (map (fun w => export_vn src_present_verilog src_valid_verilog src_prefix_verilog ws (wname w)) ws) ->
+  NoDup (map (fun n => nsort (rename_n (export_vn src_present_verilog src_valid_verilog src_prefix_verilog ws) n)) ns) ->
+  export_text src_natural_key src_natural_key_ltb src_present_verilog src_valid_verilog src_prefix_verilog
               wsecs nsecs ws ns =
-  export_text src_natural_key src_natural_key_ltb src_present_verilog src_verilog_valid src_prefix_verilog
+  export_text src_natural_key src_natural_key_ltb src_present_verilog src_valid_verilog src_prefix_verilog
               wsecs nsecs ws' ns'.
 Proof. exact src_verilog_text_perm_invariant. Qed.
 Print Assumptions C20_src_verilog_text_perm_invariant.
@@ -231,9 +231,9 @@ Theorem C20_src_verilog_text_perm_invariant_names : forall wsecs nsecs ws ws' ns
   (forall w, In w ws -> has_prefix src_prefix_verilog (wname w) = false) ->
   (forall n, In n ns -> nraw n = false /\ In (nsort n) (map wname ws)) ->
   NoDup (map nsort ns) ->
-  export_text src_natural_key src_natural_key_ltb src_present_verilog src_verilog_valid src_prefix_verilog
+  export_text src_natural_key src_natural_key_ltb src_present_verilog src_valid_verilog src_prefix_verilog
               wsecs nsecs ws ns =
-  export_text src_natural_key src_natural_key_ltb src_present_verilog src_verilog_valid src_prefix_verilog
+  export_text src_natural_key src_natural_key_ltb src_present_verilog src_valid_verilog src_prefix_verilog
               wsecs nsecs ws' ns'.
 Proof. exact src_verilog_text_perm_invariant_names. Qed.
 Print Assumptions C20_src_verilog_text_perm_invariant_names.
@@ -248,11 +248,11 @@ Print Assumptions C20_sanitizer_injective.
 
 Theorem C20_src_testbench_text_perm_invariant : forall wsecs nsecs ws ws' ns ns',
   Permutation ws ws' -> Permutation ns ns' ->
-  NoDup (map (fun w => export_vn src_present_testbench src_verilog_valid src_prefix_testbench ws (wname w)) ws) ->
-  NoDup (map (fun n => nsort (rename_n (export_vn src_present_testbench src_verilog_valid src_prefix_testbench ws) n)) ns) ->
-  export_text src_natural_key src_natural_key_ltb src_present_testbench src_verilog_valid src_prefix_testbench
+  NoDup (map (fun w => export_vn src_present_testbench src_valid_testbench src_prefix_testbench ws (wname w)) ws) ->
+  NoDup (map (fun n => nsort (rename_n (export_vn src_present_testbench src_valid_testbench src_prefix_testbench ws) n)) ns) ->
+  export_text src_natural_key src_natural_key_ltb src_present_testbench src_valid_testbench src_prefix_testbench
               wsecs nsecs ws ns =
-  export_text src_natural_key src_natural_key_ltb src_present_testbench src_verilog_valid src_prefix_testbench
+  export_text src_natural_key src_natural_key_ltb src_present_testbench src_valid_testbench src_prefix_testbench
               wsecs nsecs ws' ns'.
 Proof. exact src_testbench_text_perm_invariant. Qed.
 Print Assumptions C20_src_testbench_text_perm_invariant.
@@ -266,21 +266,34 @@ Print Assumptions C20_src_trace_text_perm_invariant.
 
 Theorem C20_src_vcd_text_perm_invariant : forall render_var tracked tracked' (items items' : list titem),
   Permutation tracked tracked' -> Permutation items items' -> NoDup (map fst items) ->
-  vcd_text src_trace_key src_trace_key_ltb src_present_vcd src_verilog_valid src_prefix_vcd render_var tracked items =
-  vcd_text src_trace_key src_trace_key_ltb src_present_vcd src_verilog_valid src_prefix_vcd render_var tracked' items'.
+  vcd_text src_trace_key src_trace_key_ltb src_present_vcd src_valid_vcd src_prefix_vcd render_var tracked items =
+  vcd_text src_trace_key src_trace_key_ltb src_present_vcd src_valid_vcd src_prefix_vcd render_var tracked' items'.
 Proof. exact src_vcd_text_perm_invariant. Qed.
 Print Assumptions C20_src_vcd_text_perm_invariant.
 
-(* STILL schedule-dependent in the source: two memory-write ports sharing one enable wire
-   tie under _net_sorted (key = str(args[2]) only) and are emitted in set order *)
-Theorem C20_src_shared_write_enable_refuted : exists ns ns',
+(* the name a memory-write net is sorted by: injective in (enable, addr, data) if the source
+   builds it from all three, else (enable only) two ports sharing an enable collide.  The
+   statement is the branch selected by what _net_sorted says in /repo now. *)
+Theorem C20_src_memwrite_sort_key_status :
+  if src_memwrite_total
+  then forall we a d we' a' d' : name,
+         no_space we = true -> no_space a = true -> no_space we' = true -> no_space a' = true ->
+         src_memwrite_sortname we a d = src_memwrite_sortname we' a' d' ->
+         we = we' /\ a = a' /\ d = d'
+  else exists we a d a' d' : name,
+         (a, d) <> (a', d') /\ src_memwrite_sortname we a d = src_memwrite_sortname we a' d'.
+Proof. exact src_memwrite_sort_key_status. Qed.
+Print Assumptions C20_src_memwrite_sort_key_status.
+
+(* ... and nets that are sorted by one and the same name are emitted in set order *)
+Theorem C20_equal_sort_name_order_refuted : exists ns ns',
   Permutation ns ns' /\ NoDup ns /\
-  export_text src_natural_key src_natural_key_ltb src_present_verilog src_verilog_valid src_prefix_verilog
+  export_text src_natural_key src_natural_key_ltb src_present_verilog src_valid_verilog src_prefix_verilog
               [] [demo_nsec] [] ns <>
-  export_text src_natural_key src_natural_key_ltb src_present_verilog src_verilog_valid src_prefix_verilog
+  export_text src_natural_key src_natural_key_ltb src_present_verilog src_valid_verilog src_prefix_verilog
               [] [demo_nsec] [] ns'.
 Proof. exact src_shared_write_enable_refuted. Qed.
-Print Assumptions C20_src_shared_write_enable_refuted.
+Print Assumptions C20_equal_sort_name_order_refuted.
 
 (* ---- why the repairs were needed (models of the code before F15 / F16) ---- *)
 Theorem C20_sanitizer_set_order_refuted : exists (valid : name -> bool) prefix pres pres' s,
@@ -313,7 +326,7 @@ Definition ex_nsec : section nitem :=
   {| s_head := nm "#"; s_sel := fun _ => true; s_render := fun n => (nsort n ++ nm ";")%list |}.
 Definition ex_text ws ns : string :=
   string_of_list_ascii
-    (export_text src_natural_key src_natural_key_ltb src_present_verilog src_verilog_valid src_prefix_verilog
+    (export_text src_natural_key src_natural_key_ltb src_present_verilog src_valid_verilog src_prefix_verilog
                  [ex_wsec 0; ex_wsec 1; ex_wsec 4] [ex_nsec] ws ns).
 
 Example C20_example_text :
@@ -326,7 +339,7 @@ Example C20_example_hypotheses :
   /\ (forall w, In w ex_ws -> has_prefix src_prefix_verilog (wname w) = false)
   /\ (forall n, In n ex_ns -> nraw n = false /\ In (nsort n) (map wname ex_ws))
   /\ NoDup (map nsort ex_ns)
-  /\ count_invalid src_verilog_valid (map wname ex_ws) = 2%N
+  /\ count_invalid src_valid_verilog (map wname ex_ws) = 2%N
   /\ forallb no_leading_zero (map wname ex_ws) = false.
 Proof.
   split. apply nodupb_NoDup. vm_compute. reflexivity.
